@@ -424,7 +424,13 @@ func drive(args []string) {
 	}
 	var sampleAny []any
 	for _, s := range samples {
-		sampleAny = append(sampleAny, s)
+		// samples are illustrations, not replay files: long lists (the recorded
+		// schedule of a run has one entry per context switch) and long strings
+		// are cut so that the evidence file stays small
+		raw, _ := json.Marshal(s)
+		var v any
+		json.Unmarshal(raw, &v)
+		sampleAny = append(sampleAny, trimSample(v))
 	}
 	if len(sampleAny) == 0 {
 		sampleAny = append(sampleAny, "no non-trivial run completed")
@@ -585,4 +591,31 @@ func tail(s string, n int) string {
 		return s[len(s)-n:]
 	}
 	return s
+}
+
+// trimSample bounds the size of a sample: lists keep their first 24 entries,
+// strings their first 400 characters; what was cut is stated in place.
+func trimSample(v any) any {
+	switch t := v.(type) {
+	case map[string]any:
+		for k, e := range t {
+			t[k] = trimSample(e)
+		}
+		return t
+	case []any:
+		n := len(t)
+		if n > 24 {
+			t = append(t[:24:24], fmt.Sprintf("... %d more entries cut from this sample", n-24))
+		}
+		for i := range t {
+			t[i] = trimSample(t[i])
+		}
+		return t
+	case string:
+		if len(t) > 400 {
+			return t[:400] + fmt.Sprintf("... (%d more characters cut from this sample)", len(t)-400)
+		}
+		return t
+	}
+	return v
 }
